@@ -91,6 +91,20 @@ def _unions() -> typing.List[Entry]:
     ]
 
 
+def _tails() -> typing.List[Entry]:
+    """byte-aligned fields of non-standard width (stored in a wider C type) as the LAST field: a copy sized by the storage type
+    instead of the serialized width overruns an exactly-sized buffer"""
+    return [
+        ("T_u24", "uint8 a\nuint24 b\n@sealed\n", "aligned uint24 as the final field"),
+        ("T_i20", "uint16 a\nsaturated int20 b\n@sealed\n", "aligned int20 as the final field"),
+        ("T_u40", "truncated uint40 v\n@sealed\n", "aligned uint40 as the only field"),
+        ("T_u56a", "uint8[<=2] a\nuint56 b\n@sealed\n", "aligned uint56 after a variable array, final field"),
+        ("InDs", "uint8 x\n@extent 2 * 8\n", "small fixed-size delimited leaf"),
+        ("T_dtail", "uint8 a\nInDs.1.0 d\n@sealed\n", "fixed-size delimited nested type (extent < 8 bytes) at the tail"),
+        ("T_f16tail", "uint8 a\nfloat16 h\n@sealed\n", "aligned float16 as the final field"),
+    ]
+
+
 def _services() -> typing.List[Entry]:
     return [
         ("Svc", "uint8 a\nuint8[<=2] b\n@sealed\n---\nsaturated int9 r\nIn1.1.0 n\n@extent 10 * 8\n", "service request/response"),
@@ -119,7 +133,7 @@ def _metadata() -> typing.List[Entry]:
 
 def quick_names() -> typing.List[str]:
     """about 40 types for the quick tier (every feature family, fewer offsets/widths)"""
-    sel = [n for n, _, _ in _arrays() + _composites() + _unions() + _services() if n != "C_arrd"]
+    sel = [n for n, _, _ in _arrays() + _composites() + _unions() + _services() + _tails() if n != "C_arrd"]
     pr = [n for n, _, _ in _prims()]
     sel += pr[::3]
     sel += ["W_u1", "W_u63", "W_i2", "W_i33"]
@@ -127,7 +141,7 @@ def quick_names() -> typing.List[str]:
 
 
 def all_entries(seed: int = 0, n_random: int = 0, metadata: bool = False) -> typing.List[Entry]:
-    out = _prims() + _wide_widths() + _arrays() + _composites() + _unions() + _services()
+    out = _prims() + _wide_widths() + _arrays() + _composites() + _unions() + _services() + _tails()
     if metadata:
         out += _metadata()
     rng = random.Random(seed)
